@@ -330,7 +330,7 @@ func (n JNode) goValue() any {
 	return nil
 }
 
-func goTypeName(n JNode) string {
+func vhGoTypeName(n JNode) string {
 	switch n.K {
 	case "obj":
 		return "map[string]interface {}"
@@ -379,7 +379,7 @@ func (n JNode) sortedDeep() JNode {
 		out.Kids[i] = k.sortedDeep()
 	}
 	if n.K == "obj" {
-		idx := indices(len(n.Keys))
+		idx := vhIndices(len(n.Keys))
 		sort.SliceStable(idx, func(a, b int) bool { return n.Keys[idx[a]] < n.Keys[idx[b]] })
 		keys := make([]string, len(idx))
 		kids := make([]JNode, len(idx))
@@ -796,7 +796,7 @@ func genMatcherStep(t *rapid.T, kind string, cur JNode, comps []pathComp) matche
 			}
 		}
 		if hasMissing && rapid.IntRange(0, 3).Draw(t, "tolerant") > 0 {
-			st.Spec.ErrMissing = boolp(false)
+			st.Spec.ErrMissing = vhBoolp(false)
 		}
 		st.Spec.Paths = paths
 	}
@@ -846,7 +846,7 @@ func applyModel(cur JNode, st matcherStep) (JNode, bool) {
 				repl = JNode{K: "str", S: "<Any value>"}
 			}
 		case "type":
-			repl = JNode{K: "str", S: "<Type:" + goTypeName(node) + ">"}
+			repl = JNode{K: "str", S: "<Type:" + vhGoTypeName(node) + ">"}
 		case "custom":
 			repl = jnodeFromRaw(st.Spec.Return)
 			if st.Spec.InPlace {
@@ -960,9 +960,9 @@ func runMatcherCall(kind, test, doc, form string, sortKeys bool, matchers []Matc
 	stored := ""
 	switch kind {
 	case "sjson":
-		stored = readFile(filepath.Join(root, spec.standalonePath(test, 1, true)))
+		stored = vhReadFile(filepath.Join(root, spec.standalonePath(test, 1, true)))
 	default:
-		es, err := refParse(readFile(filepath.Join(root, spec.multiPath())))
+		es, err := refParse(vhReadFile(filepath.Join(root, spec.multiPath())))
 		if err != nil {
 			return r, "", fmt.Errorf("file not well formed: %v", err)
 		}
@@ -1027,20 +1027,20 @@ func checkC15(c c15Case) error {
 		return fmt.Errorf("unexpected outcome %s", out)
 	}
 	if !modelOK {
-		return fmt.Errorf("a matcher addressed a path that does not exist (any more) and missing paths are not tolerated, but no error was reported; stored %q", clip(stored))
+		return fmt.Errorf("a matcher addressed a path that does not exist (any more) and missing paths are not tolerated, but no error was reported; stored %q", vhClip(stored))
 	}
 	var got JNode
 	if c.Kind == "yaml" {
 		got, err = parseYAMLTree(stored)
 		if err != nil {
-			return fmt.Errorf("stored YAML does not parse: %v: %q", err, clip(stored))
+			return fmt.Errorf("stored YAML does not parse: %v: %q", err, vhClip(stored))
 		}
 		if c.finalNewline() != strings.HasSuffix(stored, "\n") {
-			return fmt.Errorf("presence of the final newline changed: input newline=%v, stored %q", c.finalNewline(), clip(stored))
+			return fmt.Errorf("presence of the final newline changed: input newline=%v, stored %q", c.finalNewline(), vhClip(stored))
 		}
 	} else {
 		if !json.Valid([]byte(stored)) {
-			return fmt.Errorf("stored document is not valid JSON: %q", clip(stored))
+			return fmt.Errorf("stored document is not valid JSON: %q", vhClip(stored))
 		}
 		got, err = parseJNode(stored)
 		if err != nil {
@@ -1049,7 +1049,7 @@ func checkC15(c c15Case) error {
 	}
 	ordered := c.Kind == "yaml" || (!c.SortKeys && form != "value")
 	if !looseEqual(cur, got, ordered) {
-		return fmt.Errorf("stored document is not the input with exactly the targeted values replaced (ordered=%v):\n input  %q\n want   %q\n stored %q", ordered, clip(c.docText()), clip(cur.Compact()), clip(got.Compact()))
+		return fmt.Errorf("stored document is not the input with exactly the targeted values replaced (ordered=%v):\n input  %q\n want   %q\n stored %q", ordered, vhClip(c.docText()), vhClip(cur.Compact()), vhClip(got.Compact()))
 	}
 	// matcher VALUES built once and used for earlier documents first (a helper holding `var volatile = match.Any(...)`):
 	// the document must store what it stores through fresh matcher values
@@ -1139,20 +1139,20 @@ func checkC15Reuse(c c15Case, specs []MatcherSpec, form, storedFresh string) err
 	r := Call{API: c.Kind, Doc: BS(c.docText()), Form: form, prebuilt: built}.invoke(spec.build(root), ft)
 	ft.finish()
 	if out, _ := outcomeOf(r); out != oAdded {
-		return fmt.Errorf("through matcher values that were used for earlier documents the call ended as %q (errors %q); through fresh matcher values it stored %q", out, clipAll(r.Errors), clip(storedFresh))
+		return fmt.Errorf("through matcher values that were used for earlier documents the call ended as %q (errors %q); through fresh matcher values it stored %q", out, vhClipAll(r.Errors), vhClip(storedFresh))
 	}
 	got := ""
 	if c.Kind == "sjson" {
-		got = readFile(filepath.Join(root, spec.standalonePath(c.Test, 1, true)))
+		got = vhReadFile(filepath.Join(root, spec.standalonePath(c.Test, 1, true)))
 	} else {
-		es, err := refParse(readFile(filepath.Join(root, spec.multiPath())))
+		es, err := refParse(vhReadFile(filepath.Join(root, spec.multiPath())))
 		if err != nil || len(es) != 1 {
 			return fmt.Errorf("reused matcher values: %d entries (%v)", len(es), err)
 		}
 		got = refUnescape(string(es[0].Body))
 	}
 	if got != storedFresh {
-		return fmt.Errorf("the same matcher values used for earlier documents change what this document stores:\n fresh  %q\n reused %q", clip(storedFresh), clip(got))
+		return fmt.Errorf("the same matcher values used for earlier documents change what this document stores:\n fresh  %q\n reused %q", vhClip(storedFresh), vhClip(got))
 	}
 	return nil
 }
@@ -1255,7 +1255,7 @@ func classifyC15(c c15Case) ([]string, bool) {
 			}
 		}
 	}
-	return uniq(cls), nt
+	return vhUniq(cls), nt
 }
 
 // ---- K6 (known finding): strings that go-yaml marshals unquoted INSIDE a container ------------------------------------
@@ -1289,7 +1289,7 @@ func TestC15K6_NestedUnquotedStrings(t *testing.T) {
 			return ""
 		}}
 	p.enumerate(t, func(yield func(c15Case) bool) {
-		if getenv("VERIF_SHARD", "0") != "0" {
+		if vhGetenv("VERIF_SHARD", "0") != "0" {
 			return
 		}
 		for _, u := range k6Strings {
@@ -1333,7 +1333,7 @@ type c16Case struct {
 	Test    string        `json:"test"`
 }
 
-func nested(a, b []pathComp) bool {
+func vhNested(a, b []pathComp) bool {
 	n := len(a)
 	if len(b) < n {
 		n = len(b)
@@ -1452,7 +1452,7 @@ func genC16(t *rapid.T) c16Case {
 		}
 		clash := false
 		for _, m := range masked {
-			if nested(m, comps) {
+			if vhNested(m, comps) {
 				clash = true
 			}
 		}
@@ -1533,7 +1533,7 @@ func genC16(t *rapid.T) c16Case {
 		}
 		clash := false
 		for _, m := range masked {
-			if nested(m, comps) {
+			if vhNested(m, comps) {
 				clash = true
 			}
 		}
@@ -1572,7 +1572,7 @@ func (c c16Case) specs() []MatcherSpec {
 		return []MatcherSpec{m}
 	}
 	if c.Merged {
-		m := MatcherSpec{Kind: "any", ErrMissing: boolp(false), Stmt: len(c.Test)%2 == 1}
+		m := MatcherSpec{Kind: "any", ErrMissing: vhBoolp(false), Stmt: len(c.Test)%2 == 1}
 		for _, st := range c.Steps {
 			m.Paths = append(m.Paths, st.Spec.Paths[0])
 		}
@@ -1616,7 +1616,7 @@ func checkC16(c c16Case) error {
 		}
 		if out == oFailed {
 			// every matcher is satisfiable on this document by construction (existing path, matching type)
-			return "", fmt.Errorf("matchers that are satisfiable on the document reported a failure: %q (document %q)", clipAll(r.Errors), clip(c.text(n)))
+			return "", fmt.Errorf("matchers that are satisfiable on the document reported a failure: %q (document %q)", vhClipAll(r.Errors), vhClip(c.text(n)))
 		}
 		if out != oAdded {
 			return "", fmt.Errorf("recording: outcome %s", out)
@@ -1668,13 +1668,13 @@ func checkC16(c c16Case) error {
 	}
 	col.bump("observed_satisfiable")
 	if s1 != s2 {
-		return fmt.Errorf("inputs differing only at masked paths store different snapshots:\n D  %q -> %q\n D' %q -> %q", clip(c.text(c.D)), clip(s1), clip(c.text(c.DPrime)), clip(s2))
+		return fmt.Errorf("inputs differing only at masked paths store different snapshots:\n D  %q -> %q\n D' %q -> %q", vhClip(c.text(c.D)), vhClip(s1), vhClip(c.text(c.DPrime)), vhClip(s2))
 	}
 	if out, r, err := replay(root1, c.DPrime); err != nil || out != oPassed {
-		return fmt.Errorf("D' against the snapshot of D: outcome %q err %v errors=%q", out, err, clipAll(r.Errors))
+		return fmt.Errorf("D' against the snapshot of D: outcome %q err %v errors=%q", out, err, vhClipAll(r.Errors))
 	}
 	if out, r, err := replay(root2, c.D); err != nil || out != oPassed {
-		return fmt.Errorf("D against the snapshot of D': outcome %q err %v errors=%q", out, err, clipAll(r.Errors))
+		return fmt.Errorf("D against the snapshot of D': outcome %q err %v errors=%q", out, err, vhClipAll(r.Errors))
 	}
 	// matcher VALUES reused across calls (as a test helper holding `var masks = match.Any(...)` does): a warm-up document
 	// that lacks the first masked member, then D – D must store exactly what it stores through fresh matcher values
@@ -1705,7 +1705,7 @@ func checkC16(c c16Case) error {
 		r3 := Call{API: c.Kind, Doc: BS(c.text(c.D)), Form: form(c.D), prebuilt: built}.invoke(spec.build(root3), ft)
 		ft.finish()
 		if out3, _ := outcomeOf(r3); out3 != oAdded {
-			return fmt.Errorf("D through reused matcher values: outcome %q errors=%q", out3, clipAll(r3.Errors))
+			return fmt.Errorf("D through reused matcher values: outcome %q errors=%q", out3, vhClipAll(r3.Errors))
 		}
 		var all []string
 		for p, f := range snapDir(root3) {
@@ -1714,7 +1714,7 @@ func checkC16(c c16Case) error {
 			}
 		}
 		if len(all) != 1 || all[0] != s1 {
-			return fmt.Errorf("the same matcher values used for an earlier document change what D stores:\n fresh  %q\n reused %q", clip(s1), clip(strings.Join(all, "|")))
+			return fmt.Errorf("the same matcher values used for an earlier document change what D stores:\n fresh  %q\n reused %q", vhClip(s1), vhClip(strings.Join(all, "|")))
 		}
 	}
 	if c.HasDD {
@@ -1723,7 +1723,7 @@ func checkC16(c c16Case) error {
 			return fmt.Errorf("D'' (unmasked value changed): %v", err)
 		}
 		if out != oFailed {
-			return fmt.Errorf("an input that differs at a path no matcher covers ended as %q against the snapshot of D: D %q  D'' %q (errors=%q)", out, clip(c.text(c.D)), clip(c.text(c.DDouble)), clipAll(r.Errors))
+			return fmt.Errorf("an input that differs at a path no matcher covers ended as %q against the snapshot of D: D %q  D'' %q (errors=%q)", out, vhClip(c.text(c.D)), vhClip(c.text(c.DDouble)), vhClipAll(r.Errors))
 		}
 	}
 	return nil
@@ -1757,7 +1757,7 @@ func classifyC16(c c16Case) ([]string, bool) {
 			cls = append(cls, "path_below_dollar_key")
 		}
 	}
-	return uniq(cls), len(c.Steps) >= 1 && c.text(c.D) != c.text(c.DPrime)
+	return vhUniq(cls), len(c.Steps) >= 1 && c.text(c.D) != c.text(c.DPrime)
 }
 
 // genC16Flat: a flat record whose members (ids, timestamps, tokens: numbers of 1-15 digits or strings of 0-20 bytes) are all
@@ -1895,7 +1895,7 @@ func genC17(t *rapid.T) c17Case {
 		comps, ok := genExistingPath(t, c.Tree, true)
 		if ok {
 			for _, u := range used {
-				if nested(u, comps) {
+				if vhNested(u, comps) {
 					ok = false
 				}
 			}
@@ -1937,10 +1937,10 @@ func genC17(t *rapid.T) c17Case {
 			m.Spec = MatcherSpec{Kind: which, Paths: []string{mp}, TypeName: "string", Return: json.RawMessage(`"r"`)}
 			m.Failing = true
 			if !manyFail && rapid.Bool().Draw(t, "tolerant") {
-				m.Spec.ErrMissing = boolp(false)
+				m.Spec.ErrMissing = vhBoolp(false)
 				m.Failing, m.Ignored = false, true
 			} else if rapid.Bool().Draw(t, "explicit") {
-				m.Spec.ErrMissing = boolp(true)
+				m.Spec.ErrMissing = vhBoolp(true)
 			}
 			if m.Spec.ErrMissing != nil {
 				m.Spec.Stmt = rapid.Bool().Draw(t, "stmtform")
@@ -1948,7 +1948,7 @@ func genC17(t *rapid.T) c17Case {
 		case kind < 4: // wrong type (an existing null is not a string either, in JSON and in YAML; a YAML integer is not a string)
 			m.Spec = MatcherSpec{Kind: "type", Paths: []string{path}, TypeName: wrongType(node, yamlDoc)}
 			if rapid.Bool().Draw(t, "tolerantflag") {
-				m.Spec.ErrMissing = boolp(false) // irrelevant: the path exists
+				m.Spec.ErrMissing = vhBoolp(false) // irrelevant: the path exists
 			}
 			m.Failing = true
 			m.Comps = comps
@@ -2111,7 +2111,7 @@ func checkC17(c c17Case) error {
 	case "update_existing":
 		mode = Mode{Update: "true"}
 	case "update_false":
-		s2.Update = boolp(false)
+		s2.Update = vhBoolp(false)
 	case "ci":
 		mode = Mode{CI: true}
 	}
@@ -2134,7 +2134,7 @@ func checkC17(c c17Case) error {
 	}
 	if anyFailing {
 		if out != oFailed {
-			return fmt.Errorf("a matcher fails but the call ended as %q (mode %s); logs=%q", out, c.ModeKind, clipAll(r.Logs))
+			return fmt.Errorf("a matcher fails but the call ended as %q (mode %s); logs=%q", out, c.ModeKind, vhClipAll(r.Logs))
 		}
 		for _, m := range c.Matchers {
 			if !m.Failing {
@@ -2146,7 +2146,7 @@ func checkC17(c c17Case) error {
 			}
 			want := fmt.Sprintf(`match.%s("%s")`, m.Name, fp)
 			if !strings.Contains(r.Errors[0], want) {
-				return fmt.Errorf("the failure does not name %s; error text %q", want, clip(r.Errors[0]))
+				return fmt.Errorf("the failure does not name %s; error text %q", want, vhClip(r.Errors[0]))
 			}
 		}
 		// ... and only those: a matcher that is satisfiable on the document (as the matchers before it left it) did not fail
@@ -2162,7 +2162,7 @@ func checkC17(c c17Case) error {
 				}
 			}
 			if !dup && strings.Contains(r.Errors[0], named) {
-				return fmt.Errorf("the failure names %s, which is satisfiable on this document; error text %q", named, clip(r.Errors[0]))
+				return fmt.Errorf("the failure names %s, which is satisfiable on this document; error text %q", named, vhClip(r.Errors[0]))
 			}
 		}
 		if d := diffDirs(before, after, true); d != "" {
@@ -2181,12 +2181,12 @@ func checkC17(c c17Case) error {
 			}
 		}
 		if out != want {
-			return fmt.Errorf("no matcher fails (missing paths are tolerated) in mode %s: outcome %q, want %q; errors=%q", c.ModeKind, out, want, clipAll(r.Errors))
+			return fmt.Errorf("no matcher fails (missing paths are tolerated) in mode %s: outcome %q, want %q; errors=%q", c.ModeKind, out, want, vhClipAll(r.Errors))
 		}
 		if out == oFailed {
 			for _, m := range c.Matchers {
 				if m.Ignored && strings.Contains(r.Errors[0], fmt.Sprintf(`("%s")`, m.Spec.Paths[0])) {
-					return fmt.Errorf("a missing path under ErrOnMissingPath(false) is reported: %q", clip(r.Errors[0]))
+					return fmt.Errorf("a missing path under ErrOnMissingPath(false) is reported: %q", vhClip(r.Errors[0]))
 				}
 			}
 		}
@@ -2209,7 +2209,7 @@ func checkC17(c c17Case) error {
 			continue
 		}
 		if o2 != oAdded {
-			return fmt.Errorf("call %d after the call under test must create slot %d (the failing call consumes its ordinal), outcome %q errors=%q", i, slot, o2, clipAll(rr.Errors))
+			return fmt.Errorf("call %d after the call under test must create slot %d (the failing call consumes its ordinal), outcome %q errors=%q", i, slot, o2, vhClipAll(rr.Errors))
 		}
 		if id == "" {
 			if _, ok := post[file]; !ok {
@@ -2266,7 +2266,7 @@ func classifyC17(c c17Case) ([]string, bool) {
 			}
 		}
 	}
-	return uniq(cls), nt
+	return vhUniq(cls), nt
 }
 
 func TestC17_MatcherFailures(t *testing.T) {
